@@ -205,6 +205,12 @@ def run(ctx):
         if cfg in ("default", "arkzkey") or ctx.tier == "thorough":
             check_loader(ctx, cfg, fb)
     ctx.floor("hasher-impl-functions", n, 12)
+    # R17-7 (shared with C06 R06-11): the persistent configuration stores what the in-memory ones keep: the key-value adapter drops or alters no record
+    from . import c06 as _c06s
+    _subs = type(ctx)(ctx.pid, ctx.tier)
+    _c06s.check_store_adapter(_subs, ctx.fb("default"))
+    for r in _subs.results:
+        (ctx.ok if r.status == "ok" else ctx.fail)("R17-7", r.instance, r.reason, r.loc)
     # R17-5 (shared with C06 R06-2/R06-3): the feature-selected tree back ends agree on the bookkeeping formulas and on the node
     # recomputation shape (same high-water rule, delete guard, parent = H(left, right) unconditionally, same default cache)
     from . import c06
